@@ -426,3 +426,32 @@ claim("C19",
       technique="bounded stand-in for contract verification: run-time checked contract on the real classes over an "
                 "exhaustively enumerated finite domain of operation sequences (stated bound); labelled bounded, not "
                 "counted as proved")
+
+claim("C22",
+      "ResourceManager after fix 8bfe69d (a dependency resolution runs under the manager's lock, re-entrant for the "
+      "resolving task). Discharged by z3 on the real code: `_get` - a name already on the resolution chain never "
+      "returns a value and a cycle error is raised here only for such a name (any other ValueError comes out of the "
+      "single nested resolve()); a cached resource that exists is returned as it is, without a factory call and "
+      "without touching anything; within one resolution the per-resolution table answers; otherwise exactly one "
+      "resolve() of this descriptor, whose value is returned and recorded (workflow-wide only if cached); on EVERY "
+      "exit - value, factory error, nested cycle, cancellation - the chain is as before and nothing already resolved "
+      "is replaced or dropped (the resolution guarantee, assumed for the re-entrant resolve() call and proved for "
+      "`_get` and `get#with1`). `resolution_scope#enter/#exit` (mechanically extracted halves of the generator "
+      "context manager): leaving the outermost scope empties the per-resolution table, inner scopes leave it alone, "
+      "the workflow-wide table is never touched. `_resolution_lock`: one lock per manager and loop. `set`: one "
+      "entry. On the AST: the bookkeeping fields are used only by `_get` / `resolution_scope`; `_get` is reached only "
+      "through get()'s exclusive section; the scope is entered only inside `async with lock > try/finally owner "
+      "reset`; re-entry is by task identity; the owner is recorded under the lock; the lock is taken by `async with` "
+      "only; `partial` resolves all of a step's resources inside ONE exclusive section.",
+      "The composition of these pieces under concurrency (at most one task inside => the sequential contracts "
+      "describe every resolution) is a rely/guarantee argument written in the evidence, NOT machine-checked; it is "
+      "cross-checked by a BOUNDED native scenario (random schedules of 2-4 concurrently resolving steps with "
+      "cancellations and a failing factory on the real classes: 400 quick / 20000 thorough), which is counted as "
+      "bounded, not proved. `_Resource.resolve` / `call` / `_resolve_dependencies` (signature inspection, calling "
+      "the user factory) are not verified against the resolution guarantee: it is assumed for every descriptor. "
+      "asyncio.Lock and current_task are assumed library contracts.",
+      category="other",
+      technique="contract-based deductive verification: pre/postconditions (normal and exceptional exits) on the real "
+                "`_get`, `set`, `_resolution_lock` and on mechanically extracted sections (pyvc + z3, ghost call log "
+                "for the re-entrant resolve()); lock-discipline contract decided on the AST; bounded native "
+                "interleaving scenario as cross-check and replay")
